@@ -318,7 +318,12 @@ def run (c : Case) : CaseOut := Id.run do
     | _ => false
   let verdict := match (LifecycleSpec.clauses (hasSinks && quiesced) evs').find? (fun x => !x.2) with
     | some cl => "fail:" ++ cl.1
-    | none => "ok"
+    | none =>
+      -- free-running rounds: two seconds after both Stop calls returned the process must be back at the number of
+      -- goroutines it had before the instance was created (reproduced three times by the harness)
+      if (c.ops.flatMap (·.2)).any (fun l => l.head? == some "stuck") then "fail:deadlock(caller-never-released-after-stop)"
+      else if (c.ops.flatMap (·.2)).any (fun l => l.head? == some "goroutines-left") then "fail:engine-goroutine-still-running-after-stop"
+      else "ok"
   if d.s.rowPanics.length > 0 then tags := "row-panic" :: tags
   return { obs := obs, spec := verdict, tags := tags }
 
